@@ -10,6 +10,7 @@ open Exc Py
   frame := <file> <line> <func> <source> <hidden> <nvals> val*
   val   := <repr tok | !> <typename tok>
   val <maxLen> <repr tok | !> <typename tok>
+  uses <string over d,c>      (flags reported by successive uses of one catch object)
   vlines <maxLen> <repr tok | !> <typename tok>      (number of display lines, characters on them)
   fmtall <limit|n> <maxLen> <fromDec> <budget> <root> <nexc> exn*      (all eight modes)
 -/
@@ -94,6 +95,11 @@ def pCase : P (Bool × Heap × Opts × Nat × Nat × Bool) := do
 
 def step (line : String) : String :=
   match line.splitOn " " with
+  | ["uses", pat] =>
+    -- one catch object: 'd' = decorator use, 'c' = context-manager use; answer = the flag reported by each use
+    let us := pat.toList.filterMap fun ch => if ch = 'd' then some Use.decorator else if ch = 'c' then some Use.context else none
+    if us.length ≠ pat.length then "bad-op"
+    else "ok " ++ String.ofList ((runUses ⟨Gen.catchContextFlag⟩ us).map fun f => if f then '1' else '0')
   | ["vlines", ml, r, ty] =>
     match ml.toNat?, decTok ty with
     | some ml, some ty =>
